@@ -74,6 +74,15 @@ func (d *document) lookalike() string {
 
 // key builds the canonical scenario key of a disagreement.
 func (d *document) key(class string) string {
+	if d.loneInvolved || hasLone(d.top) {
+		// one key per kind of failure
+		for _, cut := range []string{"/after=", "/signatures="} {
+			if i := strings.Index(class, cut); i >= 0 {
+				class = class[:i]
+			}
+		}
+		return "C02/lone-surrogate/" + class
+	}
 	nilMap := strings.HasPrefix(class, "sign/panic/signatures=null") || strings.HasPrefix(class, "sign/panic/signatures=entity-null")
 	if l := d.lookalike(); l != "" && !nilMap {
 		// one key per kind of failure: where in the behaviour it showed is not the point here
@@ -92,7 +101,7 @@ var valuePairs = [][2]string{
 	{`1`, `"1"`}, {`null`, `false`}, {`{}`, `[]`}, {`"a"`, `"a "`}, {`"é"`, `"é"`}, {`1`, `10`},
 	{`[1,2]`, `[2,1]`}, {`{"k":[1,2]}`, `{"k":[2,1]}`}, {`"A"`, `"a"`}, {`0`, `false`}, {`""`, `null`},
 	{`9007199254740991`, `9007199254740990`}, {`-1`, `1`}, {`"\u0000"`, `""`}, {`"\\"`, `"\\\\"`}, {`"\""`, `"'"`},
-	{`{"x":1,"y":2}`, `{"x":2,"y":1}`}, {`[[]]`, `[]`}, {`"<"`, `"\\u003c"`}, {`"\n"`, `"n"`}, {`"😀"`, `"😁"`},
+	{`{"x":1,"y":2}`, `{"x":2,"y":1}`}, {`[[]]`, `[]`}, {`[0,{"x":1,"y":2}]`, `[0,{"x":2,"y":1}]`}, {`"<"`, `"\\u003c"`}, {`"\n"`, `"n"`}, {`"😀"`, `"😁"`},
 	{`"/"`, `"\\/"`}, {`{"a":null}`, `{}`}, {`[null]`, `[]`}, {`true`, `"true"`}, {`" "`, `" "`},
 	{`"\u007f"`, `"\u0080"`}, {`-9007199254740991`, `9007199254740991`}, {`{"é":1}`, `{"e":1}`}, {`100`, `1000`},
 	// numbers: around 2^53 and beyond (neighbours that collapse in float64), fractions, exponent spellings whose
@@ -103,6 +112,9 @@ var valuePairs = [][2]string{
 	{`1e-05`, `1e05`}, {`2.5E-01`, `2.5E01`}, {`-0.5`, `0.5`}, {`1.5`, `1.6`}, {`1E-7`, `1E7`}, {`3E+2`, `3E-2`}, {`1e30`, `1e31`},
 	{`[1e-05,7]`, `[1e05,7]`}, {`{"scale":-0.5}`, `{"scale":0.5}`}, {`{"n":[9007199254740993]}`, `{"n":[9007199254740992]}`},
 	{`123456789012345678901234567890`, `123456789012345678901234567891`}, {`0.1`, `0.10000000000000001`},
+	// characters outside the BMP in values and in member names (the ill-formed spellings of these are made by
+	// tamperSurrogate)
+	{`"ok 😀"`, `"ok 😁"`}, {`{"k😀":1}`, `{"k😁":1}`}, {`"\ud800\udc00"`, `"\ud800\udc01"`}, {`["\udbff\udfff", "x"]`, `["\udbff\udffe", "x"]`},
 	// keys that need escapes, in nested objects
 	{`{"\n":1,"A":2}`, `{"\n":2,"A":1}`}, {`{"\"":1}`, `{"\\":1}`}, {`{"\u0000":[],"\u001f":{}}`, `{"\u0000":{},"\u001f":[]}`},
 }
@@ -113,6 +125,8 @@ var valuePool = []string{
 	`"😀 astral"`, `{"😀":"😀","é":["é"],"a.b":{"*":1}}`, `[[[[1]]]]`, `"-0"`, `"1e5"`, `" leading"`,
 	`9007199254740992`, `9007199254740993`, `-9007199254740993`, `1e-05`, `2.5E-01`, `-0.5`, `1.5`, `3E+2`, `1e30`,
 	`{"\n":false,"A":true,"\"":[1e-05],"\\":{"\t":null}}`, `[0.5,-1.5,1E-7]`,
+	// objects with several members behind a scalar / an array inside an array (key order inside arrays)
+	`[1,{"b":1,"a":2}]`, `["x",{"z":{"b":1,"a":2},"y":0},[{"d":1,"c":2}]]`, `[null,[{"b":[true,{"d":1,"c":2}],"a":"x"}]]`,
 }
 
 var unsignedPairs = [][2]string{
@@ -133,6 +147,7 @@ var nestedShapes = []nestedShape{
 	{`{"é":"x","d":%s,"D":0}`, `{"é":"x","D":0}`},
 	{`{"k":[{"d":%s}]}`, `{"k":[{}]}`},
 	{`{"\n":false,"A":true,"d":%s}`, `{"\n":false,"A":true}`},
+	{`{"k":[1,{"d":%s,"a":0,"z":[2,{"y":1,"x":2}]}]}`, `{"k":[1,{"a":0,"z":[2,{"y":1,"x":2}]}]}`},
 	{`{"\"":{"d":%s},"\\":1e-05,"\u0000":[9007199254740993]}`, `{"\"":{},"\\":1e-05,"\u0000":[9007199254740993]}`},
 }
 
@@ -198,6 +213,12 @@ func newWorld(rng *rand.Rand, nEnt, nKid, nKey int) *world {
 // sameValue compares two value trees; numbers are compared by their exact numeric value (so that a respelling
 // like 1.0 -> 1 is not called a change, while 9007199254740993 -> 9007199254740992 is).
 func sameValue(a, b interface{}) bool {
+	if r, ok := a.(rawText); ok {
+		a = mustParse(r.text)
+	}
+	if r, ok := b.(rawText); ok {
+		b = mustParse(r.text)
+	}
 	switch x := a.(type) {
 	case map[string]interface{}:
 		y, ok := b.(map[string]interface{})
@@ -370,6 +391,9 @@ type document struct {
 	top   map[string]interface{} // the harness' own reading of the document
 	bytes []byte                 // what the library is given
 	pres  string                 // presentation tag
+	// a text with a lone surrogate escape put into one of its strings is, or was, a member of this document
+	// (only used to label disagreements)
+	loneInvolved bool
 }
 
 func (d *document) rerender(rng *rand.Rand) { d.bytes = render(d.top, styleOf(d.pres, rng)) }
@@ -472,6 +496,12 @@ func (d *document) libSign(name, kid string, priv ed25519.PrivateKey) *stepFailu
 			continue
 		}
 		now, ok := top2[k]
+		if _, raw := old.(rawText); raw && ok {
+			// an ill-formed text: how its canonical form reads is not the property's business; the harness
+			// keeps the text it wrote as the member's identity
+			top2[k] = old
+			continue
+		}
 		if !ok || !sameValue(old, now) {
 			cl := "sign/member-changed"
 			if k == "unsigned" {
